@@ -267,6 +267,20 @@ def run_case(spec0, target, steps, op, pos, pert, stats, add):
         add('C12|database-changed-by-rejected-upgrade|%s|%s' % (
             c07.diff_kind(pre, post), shape), replay,
             {'error': str(res.exc)[:200]})
+    if op == 'drop' and verdict == 'must-reject':
+        # the same rejected evolution with --purge (another branch of the
+        # emptiness test of the residual difference)
+        B.restore(base, 'default')
+        B.reset_globals()
+        t2 = O.Tracer('default')
+        r2 = D.d3(tracer=t2, purge=True)
+        stats['runs'] += 1
+        eff2 = [(q, p_) for q, p_ in t2.effects()
+                if not q.upper().startswith('PRAGMA FOREIGN_KEYS')]
+        if r2.ok and (eff2 or EB.canonical_state() != pre):
+            add('C12|non-equivalent-evolution-executed|%s|%s|with-purge' % (
+                shape, same_field_context(pert, pos)), replay,
+                {'statements': [q for q, _p in eff2][:5]})
 
 
 def work(task):
